@@ -18,6 +18,8 @@ package main
 import (
 	"bytes"
 	"context"
+	"crypto/md5"
+	"encoding/hex"
 	"encoding/json"
 	"fmt"
 	"io"
@@ -306,6 +308,14 @@ func c14Child(cfgJSON string) {
 	e.checkRouteTable()
 	e.checkEscapers()
 	r := c.SubRng("c14-" + k.label())
+	if only := os.Getenv("VERIF_C14_ONLY"); only != "" { // builder's use: one of the trailing legs alone
+		switch only {
+		case "midwrite":
+			e.writesDuringDelivery()
+		}
+		c.Finish(k.Out)
+		return
+	}
 	for h := 0; h < k.Histories; h++ {
 		e.history(r, h)
 	}
@@ -314,6 +324,7 @@ func c14Child(cfgJSON string) {
 	}
 	e.bigSources()
 	e.overlappingRequests()
+	e.writesDuringDelivery() // an API write while a delivery to the same mailbox is in flight (c14_midwrite.go)
 	c.Finish(k.Out)
 }
 
@@ -544,17 +555,43 @@ func (e *c14Env) buildSource(r *rand.Rand, seq int) (src string, g *c14GenMsg, f
 		fmt.Fprintf(&b, "Content-Type: text/plain; charset=utf-8\r\n\r\ntext-%s\r\n", g.token)
 		return b.String(), g, from, to, subj
 	}
-	natt := r.Intn(3)
+	// attachment parts: named and NAMELESS, `attachment` and `inline` dispositions, in any order.  message.Attachments() — what both the REST view
+	// and the web UI number — lists the inline parts first (document order), then the attachment parts (document order).
+	natt := r.Intn(4)
 	g.html = "<p>html-" + g.token + "</p>"
 	fmt.Fprintf(&b, "Content-Type: multipart/mixed; boundary=BB%s\r\n\r\n", g.token)
 	fmt.Fprintf(&b, "--BB%s\r\nContent-Type: text/plain; charset=utf-8\r\n\r\ntext-%s\r\n", g.token, g.token)
 	fmt.Fprintf(&b, "--BB%s\r\nContent-Type: text/html; charset=utf-8\r\n\r\n%s\r\n", g.token, g.html)
+	var inl, att [][2]string // (file name, content)
 	for i := 0; i < natt; i++ {
 		fn := fmt.Sprintf("f%d.bin", i)
+		if r.Intn(3) == 0 {
+			fn = "" // no filename= and no name=: enmime reports FileName ""
+		}
 		content := fmt.Sprintf("ATT-%s-%d", g.token, i)
-		g.atts = append(g.atts, content)
-		g.files = append(g.files, fn)
-		fmt.Fprintf(&b, "--BB%s\r\nContent-Type: application/octet-stream\r\nContent-Disposition: attachment; filename=\"%s\"\r\n\r\n%s\r\n", g.token, fn, content)
+		inline := r.Intn(3) == 0
+		ctype, disp := "application/octet-stream", "attachment"
+		if inline {
+			ctype, disp = "image/png", "inline"
+			inl = append(inl, [2]string{fn, content})
+		} else {
+			if r.Intn(3) == 0 {
+				ctype = "application/pdf"
+			}
+			att = append(att, [2]string{fn, content})
+		}
+		switch {
+		case fn == "":
+			fmt.Fprintf(&b, "--BB%s\r\nContent-Type: %s\r\nContent-Disposition: %s\r\n\r\n%s\r\n", g.token, ctype, disp, content)
+		case r.Intn(4) == 0: // the name only as a Content-Type parameter
+			fmt.Fprintf(&b, "--BB%s\r\nContent-Type: %s; name=\"%s\"\r\nContent-Disposition: %s\r\n\r\n%s\r\n", g.token, ctype, fn, disp, content)
+		default:
+			fmt.Fprintf(&b, "--BB%s\r\nContent-Type: %s\r\nContent-Disposition: %s; filename=\"%s\"\r\n\r\n%s\r\n", g.token, ctype, disp, fn, content)
+		}
+	}
+	for _, p := range append(inl, att...) {
+		g.files = append(g.files, p[0])
+		g.atts = append(g.atts, p[1])
 	}
 	fmt.Fprintf(&b, "--BB%s--\r\n", g.token)
 	return b.String(), g, from, to, subj
@@ -679,7 +716,11 @@ func (e *c14Env) deliver(r *rand.Rand, addr string, seq int) {
 		}
 	}
 	lineM := fmt.Sprintf("add %s %s from=%s to=%s subj=%s date=%d", core.HexS(box), core.Hex(stored), core.HexS(from), core.HexList(to), core.HexS(subj), sdate)
-	e.line("deliver to %q (mailbox %q, via manager=%v) -> id %s", addr, box, viaManager, nm.ID())
+	if len(g.files) > 0 {
+		e.line("deliver to %q (mailbox %q, via manager=%v) -> id %s; file names of its attachment parts, inline parts first: %q", addr, box, viaManager, nm.ID(), g.files)
+	} else {
+		e.line("deliver to %q (mailbox %q, via manager=%v) -> id %s", addr, box, viaManager, nm.ID())
+	}
 	ans := e.m.Ask(lineM)
 	e.c.Compared(1)
 	if want := fmt.Sprintf("id:%d", e.be.count[box]); ans != want {
@@ -1052,15 +1093,83 @@ func (e *c14Env) checkShowBody(box, id string, rb []byte) {
 	if m.Body == nil || !strings.Contains(m.Body.Text, "text-"+g.token) {
 		e.fail("get-returns-the-message", box, fmt.Sprintf("GET %q/%s: body text lacks the message's token %s", box, id, g.token))
 	}
-	if len(m.Attachments) != len(g.atts) {
-		e.fail("get-returns-the-message", box, fmt.Sprintf("GET %q/%s: %d attachments, message has %d", box, id, len(m.Attachments), len(g.atts)))
-		return
+	// what is returned: exactly the stored message's parts, in message.Attachments() order, each with its own name and checksum
+	exact := len(m.Attachments) == len(g.atts)
+	if !exact {
+		e.fail("get-returns-the-message", box, fmt.Sprintf("GET %q/%s: the payload lists %d attachments, the stored message has %d (file names %q)", box, id, len(m.Attachments), len(g.atts), g.files))
 	}
 	for i, a := range m.Attachments {
+		if !exact {
+			break
+		}
+		sum := md5.Sum([]byte(g.atts[i]))
+		if a.FileName != g.files[i] || a.MD5 != hex.EncodeToString(sum[:]) {
+			exact = false
+			e.fail("get-returns-the-message", box, fmt.Sprintf("GET %q/%s: attachment %d of the payload is file %q md5 %s; attachment %d of the stored message is file %q md5 %s", box, id, i, a.FileName, a.MD5,
+				i, g.files[i], hex.EncodeToString(sum[:])))
+		}
+	}
+	// where the links lead: the link the payload gives for a NAMED part returns that part's content (the generated names are unique within a message)
+	for _, a := range m.Attachments {
+		if a.FileName == "" {
+			// a part without a file name: the route /attach/{num}/{file} needs a non-empty last segment, so the link the payload carries for such a part
+			// (…/attach/<i>/) cannot resolve on the tree as it is; the property speaks of what is RETURNED (count, names, checksum: checked above)
+			e.c.H("attachment-link:nameless-part")
+			if resp, err := e.raw.Get(a.DownloadLink); err == nil {
+				io.Copy(io.Discard, resp.Body)
+				resp.Body.Close()
+				e.c.H(fmt.Sprintf("attachment-link:nameless-part-answers-%d", resp.StatusCode))
+			}
+			e.takeObs()
+			continue
+		}
+		j := -1
+		for k, fn := range g.files {
+			if fn == a.FileName {
+				j = k
+			}
+		}
+		if j < 0 {
+			continue // a name the message does not have: reported above
+		}
 		e.c.H("attachment-link")
-		ok, detail := e.fetchLink(a.DownloadLink, g.atts[i])
-		if !ok {
-			e.fail("attachment-link-resolves", box, fmt.Sprintf("mailbox %q id %s: download-link %q of the GET payload: %s", box, m.ID, a.DownloadLink, detail))
+		for _, l := range []string{a.DownloadLink, a.ViewLink} {
+			ok, detail := e.fetchLink(l, g.atts[j])
+			if !ok {
+				e.fail("attachment-link-resolves", box, fmt.Sprintf("mailbox %q id %s: the link %q the GET payload gives for attachment %q (part %d of %d, file names %q): %s", box, m.ID, l, a.FileName, j, len(g.atts), g.files, detail))
+				return
+			}
+		}
+	}
+	if !exact {
+		return
+	}
+	// the web UI's view of the same message numbers the same parts in the same order (its attach route is what the REST links point into)
+	resp, err := e.raw.Get(e.srv.URL + e.prefix("/serve/mailbox/"+url.PathEscape(box)+"/"+m.ID))
+	e.takeObs()
+	if err != nil {
+		return
+	}
+	wb, _ := io.ReadAll(resp.Body)
+	resp.Body.Close()
+	var wm struct {
+		Attachments []struct {
+			ID       string `json:"id"`
+			FileName string `json:"filename"`
+		} `json:"attachments"`
+	}
+	if resp.StatusCode != 200 || json.Unmarshal(wb, &wm) != nil {
+		return // names the web route cannot address are another oracle's matter
+	}
+	e.c.H("attachment-views-compared")
+	if len(wm.Attachments) != len(m.Attachments) {
+		e.fail("rest-and-webui-number-the-same-attachments", box, fmt.Sprintf("message %q/%s: the REST view lists %d attachments, the web UI view %d", box, m.ID, len(m.Attachments), len(wm.Attachments)))
+		return
+	}
+	for i, a := range wm.Attachments {
+		if a.ID != strconv.Itoa(i) || a.FileName != m.Attachments[i].FileName {
+			e.fail("rest-and-webui-number-the-same-attachments", box, fmt.Sprintf("message %q/%s: attachment %d is %q in the REST view, the web UI view has id %s file %q at that place", box, m.ID, i, m.Attachments[i].FileName, a.ID, a.FileName))
+			return
 		}
 	}
 }
